@@ -9,6 +9,7 @@ EXTENDS Combinators, Universes, Json
 CONSTANTS MaxLen,   \* BFS bound (Group = "bfs")
           Group     \* "bfs": all sequences up to MaxLen; "pairs": all of length <= 2;
                     \* "fin3": all triples with run-Finished at exactly one position
+                    \* "tagmatrix": see TagMatrix (cfg binds U to UKT)
 
 R1_ == Retries(0, 1)
 R2_ == Retries(1, 0)
@@ -38,7 +39,11 @@ NoFin == Alphabet \ {EvFinished}
 Pairs == {<<>>} \cup {<<a>> : a \in Alphabet} \cup {<<a, b>> : a \in Alphabet, b \in Alphabet}
 Fin3 == {<<EvFinished, a, b>> : a \in NoFin, b \in NoFin} \cup {<<a, EvFinished, b>> : a \in NoFin, b \in NoFin}
         \cup {<<a, b, EvFinished>> : a \in NoFin, b \in NoFin}
-Init == CASE Group = "bfs" -> inp = <<>>
+\* "tagmatrix" (universe UKT): one Skipped own step per scenario, alone and followed by run-Finished
+TagMatrix == LET sk(s) == LET x == ScenRec(U, s) IN EvSc(x.f, x.r, s, NoRetries, "StepSk", "", 1, "")
+             IN {<<sk(s)>> : s \in ScenNames(U)} \cup {<<sk(s), EvFinished>> : s \in ScenNames(U)}
+Init == CASE Group = "tagmatrix" -> inp \in TagMatrix
+          [] Group = "bfs" -> inp = <<>>
           [] Group = "pairs" -> inp \in Pairs
           [] Group = "fin3" -> inp \in Fin3
 Next == Group = "bfs" /\ Len(inp) < MaxLen /\ \E a \in Alphabet : inp' = Append(inp, a)
